@@ -2,7 +2,7 @@ from ..driver import Prop, Suite
 from .. import unigen, multigen
 
 class C07(Prop):
-    pid = "C07"; prop_file = ["C07.v", "C04W.v"]
+    pid = "C07"; prop_file = ["C07.v", "C04W.v", "C04Z.v"]
     rule = ("cases: producers + 1..MAX_STREAMS executor-driven streams + one thread calling cancel_all_streams at a random point, on the movable atomic and movable full-sync Uni channels; "
             "random bursty schedule then 60 round-robin rounds; non-trivial = a context switch inside another thread's operation AND a Pending answer; oracle: at the quiescent end every driven stream has answered end-of-stream")
     trusted_base = ["task semantics of the harness executor (see C04)", "the theorem is proved for the full-sync instance; for the lock-free-ring instance the same machine is checked by correspondence + oracle only",
